@@ -63,7 +63,7 @@ Print Assumptions C08_output_types_declared.
 Theorem C08_inline_blocks_alpha :
   forall p r m inputs outputs, build_checked p r = inl m ->
   all_vars (r_inputs r) = Some inputs -> all_vars (r_outputs r) = Some outputs ->
-  let p' := with_main p (Some (main_args inputs)) outputs in
+  let p' := final_prog p r inputs outputs in
   forall u i o b,
   In (u, i, o, b) (inlines_graph (mmain m) ++ flat_map (fun f => flat_map inlines_node (f_body f)) (mfunctions m))%list ->
   exists n om imps, u = NReal n /\ kind (getn p' n) = KInline om imps /\ alpha_ok om i o b = true.
